@@ -112,6 +112,7 @@ pub fn parse_ts_credentials(b: &[u8]) -> Option<(Vec<u8>, Vec<u8>, Vec<u8>)> {
 }
 
 pub fn run(em: &mut Emitter, c: &Case) {
+    watch_begin(&format!("cssp dom8={} usr8={} pwd8={} hash={} ra={} id={} flags={:08x} sc={} ti={} reply={} reply1={}", hex(c.dom.as_bytes()), hex(c.user.as_bytes()), hex(c.pw.as_bytes()), c.from_hash as u8, c.ra as u8, c.id, c.flags, hex(&c.sc), hex(&c.ti), c.reply, if c.reply1.is_empty() { "honest" } else { &c.reply1 }));
     let nt_hash = md4(&utf16(&c.pw));
     let acc = Account { domain: c.dom.clone(), user: c.user.clone(), password: c.pw.clone() };
     let key = acc.key();
